@@ -58,8 +58,8 @@ def opVm (j : Json) : P Json := do
               | .done _ s' => (Json.mkObj [("err", .str "internal")], s')
               | .raised e s' => (Json.mkObj [("err", errToJson e)], s')
               | .next s' => (Json.mkObj [("err", .str "internal")], s')
-            w := { s'.world with callNo := w0.callNo + 1 }
-            outs := outs.push (Json.mkObj [("r", r), ("log", .arr (s'.world.log.reverse.map callRecToJson).toArray),
+            w := { s'.mem.world with callNo := w0.callNo + 1 }
+            outs := outs.push (Json.mkObj [("r", r), ("log", .arr (s'.mem.world.log.reverse.map callRecToJson).toArray),
               ("steps", toJson n), ("den", resToJson (vden g dcfg)), ("sig", toJson g.signature),
               ("sizes", toJson (w.stores.map fun s => s.table.length))])
         else if t == "hash" then
@@ -71,8 +71,8 @@ def opVm (j : Json) : P Json := do
               | .done _ s' => (Json.mkObj [("err", .str "internal")], s')
               | .raised e s' => (Json.mkObj [("err", errToJson e)], s')
               | .next s' => (Json.mkObj [("err", .str "internal")], s')
-            w := { s'.world with callNo := w0.callNo + 1 }
-            outs := outs.push (Json.mkObj [("r", r), ("log", .arr (s'.world.log.reverse.map callRecToJson).toArray),
+            w := { s'.mem.world with callNo := w0.callNo + 1 }
+            outs := outs.push (Json.mkObj [("r", r), ("log", .arr (s'.mem.world.log.reverse.map callRecToJson).toArray),
               ("steps", toJson n), ("den", hresToJson (hden g dcfg))])
         else throw s!"unknown step {t}"
   pure (Json.mkObj [("results", .arr outs)])
